@@ -6,7 +6,8 @@ declare -A extra=( [C12-2]="C01" [C06-2]="C10" [C16-3]="C10" [C11-2]="C07" [C07-
   [C06-7]="C07" [C07-6]="C03" [C08-6]="C05" [C10-7]="C17" [C11-6]="C07" [C13-7]="C14" [C15-7]="C18" [C18-6]="C05" [C19-7]="C02"
   [C01-8]="C05" [C01-9]="C17" [C03-8]="C07" [C03-9]="C04" [C04-9]="C03" [C06-9]="C16" [C10-8]="C07" [C10-9]="C16" [C11-9]="C07" [C12-8]="C01" [C12-9]="C07"
   [C13-8]="C14" [C15-8]="C14" [C15-9]="C14" [C17-8]="C01" [C18-9]="C14"
-  [C14-7]="C13" [C03-11]="C02" [C04-10]="C01" [C06-11]="C18" [C10-10]="C16" [C11-10]="C07" [C11-11]="C07" [C16-11]="C07" [C17-10]="C16" [C17-11]="C16" [C18-10]="C05" [C18-11]="C07" [C19-10]="C02" [C19-11]="C16" )
+  [C14-7]="C13" [C03-11]="C02" [C04-10]="C01" [C06-11]="C18" [C10-10]="C16" [C11-10]="C07" [C11-11]="C07" [C16-11]="C07" [C17-10]="C16" [C17-11]="C16" [C18-10]="C05" [C18-11]="C07" [C19-10]="C02" [C19-11]="C16"
+  [C04-12]="C01" [C04-13]="C18" [C09-12]="C18" [C13-13]="C14" [C14-13]="C18" [C06-13]="C07" [C07-13]="C10" [C08-12]="C05" [C12-13]="C06" )
 one() {
   id=$1; prop=${id%-*}
   race=""; case $prop in C18) race=1;; esac
